@@ -5,6 +5,8 @@ import (
 	"io"
 	"strings"
 	"unicode"
+
+	"mvdan.cc/sh/v3/fileutil"
 )
 
 // ---------------------------------------------------------------- C05
@@ -33,6 +35,14 @@ func Verif_c05_comments() {
 	n := verifParam("n")
 	lang := verifLang(verifParam("lang"))
 	src := verifSrc(n)
+	switch verifParam("prefix") {
+	case 1:
+		src = append([]byte("#!/bin/sh\n"), src...)
+	case 2:
+		src = append([]byte("a # c\n"), src...)
+	case 3:
+		src = append([]byte("#!/usr/bin/env bash\n# d\n"), src...)
+	}
 	o := verifPrinterOpts()
 	f, err := NewParser(Variant(lang), KeepComments(true)).Parse(bytes.NewReader(src), "")
 	verifAssume(err == nil)
@@ -50,12 +60,13 @@ func Verif_c05_comments() {
 	verifAssume(err2 == nil) // re-parse failures are C01's subject
 	after := verifComments(f2)
 	if o.minify {
-		keep := len(before) > 0 && before[0].Hash.Line() == 1 && before[0].Hash.Col() == 1 && strings.HasPrefix(before[0].Text, "!")
+		// "shebang" as the repository defines it (fileutil.Shebang: #!/bin/sh, #!/usr/bin/env bash, ...)
+		keep := len(before) > 0 && before[0].Hash.Line() == 1 && before[0].Hash.Col() == 1 && fileutil.Shebang([]byte("#"+before[0].Text)) != ""
 		if keep {
 			verifAssert(len(after) >= 1 && verifTrimRight(after[0].Text) == verifTrimRight(before[0].Text), "Minify dropped the shebang")
 		}
-		if len(before) == 0 {
-			verifAssert(len(after) == 0, "Minify invented a comment")
+		if !keep {
+			verifAssert(len(after) == 0, "Minify kept a comment that is not a shebang on the first line")
 		}
 		verifAssert(len(after) <= 1, "Minify kept a comment other than the shebang")
 		verifReach("end")
